@@ -257,10 +257,16 @@ def run_trig(rc):
     return [{"ev": "trig", "fn": fn, "items": items}]
 
 
+UFCMP = {"lt": np.less, "le": np.less_equal, "eq": np.equal, "ne": np.not_equal,
+         "ge": np.greater_equal, "gt": np.greater}
+
+
 def run_cmp(rc):
     p = phase_operand(make_phase(rc["ph"]))
     o = make_other(rc["ot"])
-    fn = CMPOPS[rc["op"]]
+    # the operator form reflects `other < phase` into phase.__gt__(other); the ufunc form
+    # np.less(other, phase) reaches Phase.__array_ufunc__ with the phase as SECOND operand
+    fn = UFCMP[rc["op"]] if rc.get("form") == "ufunc" else CMPOPS[rc["op"]]
     ops = [p, o] if rc.get("ord", "po") == "po" else [o, p]
     shape = np.broadcast_shapes(p.shape, o.shape)
     exc = None
